@@ -15,7 +15,8 @@
                    part of every statement.
    chk_C06       : the executable checker (also the monitor on the implementation's packets). *)
 From Coq Require Import List NArith Bool Permutation String.
-From Mdns Require Import Res Bytes Rec Intf Responder ResponderSpec ResponderProofs ResponderWitness.
+From Mdns Require Import Res Bytes Rec Intf IntfCache Responder ResponderSpec IntfDaemon ResponderProofs
+     ResponderAddrProofs ResponderJustProofs ResponderHistoryProofs ResponderWitness.
 Import ListNotations.
 Open Scope N_scope.
 
@@ -91,6 +92,46 @@ Theorem C06_silent_without_address : forall inp,
   handle_query inp = None.
 Proof. exact silent_without_address. Qed.
 
+(* ---- "nothing else", without any hypothesis --------------------------------------------------------
+
+   every_answer_justified: for EVERY input of the responder model (any services, statuses, rename
+   map, interface, query, source) every record of the response - answer or additional - is a
+   record of a listed service that is Announced on the receiving interface (svc_rec: its type /
+   subtype / meta PTR, its SRV or TXT under a name case-insensitively equal to its current
+   instance name, or one of its addresses lying in a subnet of the interface, under its current
+   host name; the cache-flush bit aside). *)
+Theorem C06_every_answer_justified : forall inp p, handle_query inp = Some p ->
+  Forall (just_rec (h_services inp) (h_name_changes inp) (h_intf inp)) (p_answers p ++ p_additionals p).
+Proof. exact response_records_justified. Qed.
+
+(* ... and on the daemon model (Model/IntfDaemon.v: registrations, unregistrations, interface
+   events, selections, traffic), in EVERY state - hence after every history -: every record of
+   every response to a datagram is a record of a service that is in my_services at that moment
+   and whose status on the receiving interface is Announced. *)
+Theorem C06_daemon_answers_justified : forall d g o, In o (snd (handle_dgram d g)) ->
+  match o with
+  | OSent p => exists intf p0,
+      intf_get (dg_if g) (d_intfs d) = Some intf /\ p = reroute (d_os d) intf p0 /\
+      Forall (registered_announced_rec d (dg_if g) intf) (p_answers p0 ++ p_additionals p0)
+  | _ => True
+  end.
+Proof. exact daemon_answers_justified. Qed.
+
+(* the destination, interface and family of every response, for every input *)
+Theorem C06_response_shape_all_inputs : forall inp p, handle_query inp = Some p ->
+  Forall (link_rec (map e_svc (h_services inp)) (h_intf inp)) (p_answers p ++ p_additionals p) /\
+  p_if p = mi_index (h_intf inp) /\
+  (exists a, In a (mi_addrs (h_intf inp)) /\ is_v4 (ia_ip a) = dest_v4 (p_dest p)) /\
+  dest_v4 (p_dest p) = is_v4 (h_src_ip inp).
+Proof. exact handle_query_packet. Qed.
+
+(* C06_announced_was_announced_partial: NOT mechanised - "a service whose status is Announced on an
+   interface has had its announcement sent there since its registration" as an invariant over the
+   histories of Model/IntfDaemon.v (it needs a ghost log of the emitted packets through every
+   operation); the status is set to Announced only next to an emitted announcement in
+   do_register, add_interface and do_retrans, and the correspondence run derives the status the
+   same way (announcement seen on the wire). *)
+
 (* ---- the full statement "forall inp, wf_input inp = true -> chk_C06 inp (handle_query inp) = true"
         is FALSE of the faithful model; one witness per remaining deviation (refutes n w: w is
         well-formed, the checker rejects the model's reaction, and the reaction is the text with
@@ -153,6 +194,9 @@ Print Assumptions C06_legacy_unicast.
 Print Assumptions C06_multicast_reply.
 Print Assumptions C06_silent_for_unknown.
 Print Assumptions C06_silent_without_address.
+Print Assumptions C06_every_answer_justified.
+Print Assumptions C06_daemon_answers_justified.
+Print Assumptions C06_response_shape_all_inputs.
 Print Assumptions C06_subtype_answer_refuted.
 Print Assumptions C06_transport_family_additionals_refuted.
 Print Assumptions C06_transport_family_silence_refuted.
